@@ -180,6 +180,54 @@ fn resolve(req: &Value) -> Value {
                 std::mem::forget(child);
                 r
             }
+            // `<I18nSubContextProvider>` components: the sub-context judged comes after a sibling provider showing another locale
+            // (its parent is still the context provided above both, not the sibling)
+            "sub_component" => {
+                let sibling = opt_str(req, "sibling").map(|s| locale_of(&s));
+                let child = Owner::current().unwrap().child();
+                let r = child.with(|| {
+                    if let Some(p) = parent {
+                        let pctx = init_i18n_context_with_options(
+                            I18nContextOptions::<Locale>::default().enable_cookie(false).ssr_lang_header_getter(lang_opts(None)),
+                        );
+                        pctx.set_locale(p);
+                        provide_context(pctx);
+                    }
+                    let mut kept: Vec<AnyView> = Vec::new();
+                    if let Some(sib) = sibling {
+                        kept.push(view! { <I18nSubContextProvider initial_locale=Signal::stored(sib) ssr_lang_header_getter=lang_opts(None)>{()}</I18nSubContextProvider> }.into_any());
+                    }
+                    let slot: Arc<Mutex<Option<Locale>>> = Default::default();
+                    let slot2 = slot.clone();
+                    let ck = cookie_opts::<Locale>(cookie_header.clone(), log.clone());
+                    let lh = lang_opts(accept.clone());
+                    macro_rules! sub {
+                        ($($prop:ident = $val:expr),*) => {
+                            view! {
+                                <I18nSubContextProvider cookie_options=ck ssr_lang_header_getter=lh $($prop=$val)*>
+                                    {
+                                        *slot2.lock().unwrap() = Some(use_i18n().get_locale_untracked());
+                                        ()
+                                    }
+                                </I18nSubContextProvider>
+                            }.into_any()
+                        };
+                    }
+                    let name: Cow<'static, str> = Cow::Owned(eff_name.clone());
+                    let v = match (initial, enable_cookie) {
+                        (Some(i), true) => sub!(initial_locale = Signal::stored(i), cookie_name = name),
+                        (Some(i), false) => sub!(initial_locale = Signal::stored(i)),
+                        (None, true) => sub!(cookie_name = name),
+                        (None, false) => sub!(),
+                    };
+                    kept.push(v);
+                    let l = slot.lock().unwrap().take().expect("children of I18nSubContextProvider did not run");
+                    std::mem::forget(kept);
+                    l
+                });
+                std::mem::forget(child);
+                r
+            }
             "sub" => {
                 let child = Owner::current().unwrap().child();
                 let r = child.with(|| {
@@ -619,6 +667,51 @@ fn plural_macros(req: &Value) -> Value {
     out
 }
 
+/// C18 (reactivity of `t_format!`): a view made while the context shows `from` and rendered after `set_locale(to)`
+/// must be formatted for `to`; `td_format_string!` with an explicit locale is the reference
+fn format_views(req: &Value) -> Value {
+    use leptos_i18n::formatting::{t_format, t_format_string, td_format_string, tu_format_string};
+    let from = locale_of(req["from"].as_str().expect("from"));
+    let to = locale_of(req["to"].as_str().expect("to"));
+    let owner = Owner::new();
+    let out = owner.with(|| {
+        let ctx = init_i18n_context_with_options(
+            I18nContextOptions::<Locale>::default().enable_cookie(false).ssr_lang_header_getter(lang_opts(None)),
+        );
+        ctx.set_locale_untracked(from);
+        let num = move || 1234567.5f64;
+        let list = move || ["A", "B", "C"];
+        let v_num_a = t_format!(ctx, num, formatter: number);
+        let v_num_b = t_format!(ctx, num, formatter: number);
+        let v_cur_b = t_format!(ctx, num, formatter: currency(currency_code: EUR));
+        let v_list_b = t_format!(ctx, list, formatter: list(list_type: or));
+        let before = render(v_num_a);
+        ctx.set_locale(to);
+        let after = json!({
+            "number": render(v_num_b),
+            "currency": render(v_cur_b),
+            "list": render(v_list_b),
+            "t_format_string": t_format_string!(ctx, 1234567.5f64, formatter: number).to_string(),
+            "tu_format_string": tu_format_string!(ctx, 1234567.5f64, formatter: number).to_string(),
+        });
+        json!({
+            "before": before,
+            "after": after,
+            "expected_before": td_format_string!(from, 1234567.5f64, formatter: number).to_string(),
+            "expected_after": {
+                "number": td_format_string!(to, 1234567.5f64, formatter: number).to_string(),
+                "currency": td_format_string!(to, 1234567.5f64, formatter: currency(currency_code: EUR)).to_string(),
+                "list": td_format_string!(to, ["A", "B", "C"], formatter: list(list_type: or)).to_string(),
+                "t_format_string": td_format_string!(to, 1234567.5f64, formatter: number).to_string(),
+                "tu_format_string": td_format_string!(to, 1234567.5f64, formatter: number).to_string(),
+            },
+        })
+    });
+    exec::drain();
+    drop(owner);
+    out
+}
+
 fn handle(req: &Value) -> Value {
     let op = req["op"].as_str().unwrap_or("");
     match op {
@@ -626,6 +719,7 @@ fn handle(req: &Value) -> Value {
         "parse_tags" => parse_tags(req),
         "resolve" => resolve(req),
         "plural_macros" => plural_macros(req),
+        "format_views" => format_views(req),
         "ops" => ops(req),
         _ => json!({"bad_op": format!("unknown op {op}")}),
     }
